@@ -356,12 +356,23 @@ def judge_xml(sess, xml, made_up=()):
     except ET.ParseError:
         out.status = "unparsable-mathml-returned"        # C02's business
         return out
-    # the expression MathCAT holds must carry the same intent attributes with the same standing as the input (guard on the generator)
+    # the expression MathCAT holds must still carry the author's intent attributes (a dropped or duplicated attribute is C01/C02's business).
+    # Their standing is the one they have in the author's expression: when the clean-up of set_mathml changes what a value means (a kept
+    # row merged with its only surviving child turns '$x' into a self-reference), the case is judged by the input all the same.
     can = Analysis(canon)
-    if can.summary() != an.summary():
-        out.status = "canonicalisation-changed-intent-standing"
+    if sorted(x[0] for x in can.summary()) != sorted(x[0] for x in an.summary()):
+        out.status = "canonicalisation-changed-intent-attributes"
         return out
-    drop = set(id(e) for e in can.remove)
+    standing_changed = can.summary() != an.summary()
+    if standing_changed:
+        out.notes.append("clean_up_changes_intent_standing")
+    removed_values = [e.get("intent").strip() for e in an.remove]
+    drop = set()
+    for e in can.attrs:
+        v = e.get("intent").strip()
+        if v in removed_values:
+            removed_values.remove(v)
+            drop.add(id(e))
     same_canon = canon_key(canon, drop) == canon_key(canon_ref, set())
     REF, I1, I2, E1, E2, X = r[I_REF], r[I_I1], r[I_I2], r[I_E1], r[I_E2], r[I_X]
     out.speech = {"ref": short(REF, 200), "ignore": short(I1, 200), "error": short(E1, 200)}
@@ -370,6 +381,9 @@ def judge_xml(sess, xml, made_up=()):
     out.detail = facts
 
     def bad(kind, what, extra=""):
+        if standing_changed:
+            extra = (extra + "+" if extra else "") + "standing-changed-by-clean-up"
+            what += " | set_mathml returned " + " ".join(mml.strip_ids(r[I_SET]["v"]).split())[:500]
         out.violations.append((kind, what + " | " + facts, extra))
 
     # -- every class: same answer twice, live tree intact, Error-mode calls leave no trace -----------------------
@@ -1016,14 +1030,83 @@ def sc_nested(tree, rng, max_depth):
     return tree, [name, "glimbo"], "nested:%s:%s" % (kind, wrap)
 
 
+def vanishing(rng):
+    """a child that renders nothing and that the clean-up of set_mathml removes from a row"""
+    k = rng.randrange(11)
+    if k == 0:
+        return gen.N("mphantom", [gen.mo(rng.choice(["|", ")", "+"]))])
+    if k == 1:
+        return gen.N("mphantom", [gen.mn("5")])
+    if k == 2:
+        return gen.mtext("")
+    if k == 3:
+        return gen.mtext(rng.choice([" ", "  ", "\u00a0"]))
+    if k == 4:
+        return gen.N("mspace", width=rng.choice(["1em", "0.5em", "2pt"]))
+    if k == 5:
+        return gen.N("maligngroup")
+    if k == 6:
+        return gen.N("malignmark")
+    if k == 7:
+        return gen.N("mrow", [])
+    if k == 8:
+        return gen.N(rng.choice(["mi", "mo", "mn"]), text="")
+    if k == 9:
+        return gen.N(rng.choice(["mstyle", "mpadded"]), [])
+    return gen.N("mrow", [gen.N("mphantom", [gen.mi("x")])])
+
+
+def sc_vanishing(tree, rng, tb, max_depth):
+    """the intent sits on a row whose other children are removed by the clean-up, so that exactly the referenced child survives
+    (control: two surviving children); the row stands in the place of an operand of a random expression"""
+    n_surv = 1 if rng.random() < 0.65 else 2
+    names = rng.sample(ARG_NAMES, n_surv)
+    surv = []
+    for nme in names:
+        x = rng.random()
+        try:
+            k = tb.literal() if x < 0.7 else (gen.mi(rng.choice(gen.VARS)) if x < 0.85 else gen.N("mfrac", [tb.literal(), tb.literal()]))
+        except RuntimeError:
+            k = gen.mi(rng.choice(gen.VARS))
+        k.attrs["arg"] = nme
+        surv.append(k)
+    kids = list(surv)
+    if n_surv == 2 and rng.random() < 0.5:
+        kids.insert(1, gen.mo(rng.choice(["+", "-", "="])))
+    for _ in range(rng.choice([1, 1, 2, 3])):
+        kids.insert(rng.randint(0, len(kids)), vanishing(rng))
+    row = gen.mrow(*kids)
+    vg = ValueGen(rng, names)
+    if rng.random() < 0.75:
+        name = rng.choice(MADE_UP)
+        refs = ["$" + a for a in names]
+        if rng.random() < 0.2:
+            refs.append(rng.choice(refs))
+        row.attrs["intent"] = "%s(%s)" % (name, rng.choice([",", ", ", " , "]).join(refs))
+        made = [name]
+    else:
+        row.attrs["intent"] = illegal_value(vg, rng, min(max_depth, 20))[0]
+        made = list(MADE_UP)
+    # put the row in the place of an operand token of the expression (or next to the whole expression)
+    leaves = [p for n, p in tree.walk() if p and n.kids is None and n.tag in ("mn", "mi")]
+    if leaves and rng.random() < 0.8:
+        p = rng.choice(leaves)
+        node_at(tree, p[:-1]).kids[p[-1]] = row
+    else:
+        tree.kids = [gen.mrow(row, gen.mo("="), *tree.kids)]
+    return tree, made, "vanishing-siblings:%d" % n_surv
+
+
 def make_case(rng, decimal, max_depth):
     """returns (gen.N tree, made_up, label)"""
     for _ in range(30):
         tb = gen.Textbook(rng, decimal=decimal, max_depth=rng.choice([1, 2, 2, 3]))
         tree, _ = tb.expression()
         x = rng.random()
-        if x < 0.16:
+        if x < 0.15:
             c = sc_positive(tree, rng)
+        elif x < 0.21:
+            c = sc_vanishing(tree, rng, tb, max_depth)
         elif x < 0.70:
             c = sc_single(tree, rng, max_depth)
         elif x < 0.80:
@@ -1325,7 +1408,7 @@ def run(tier, seed):
         t0,
         rule="random textbook expressions with intent attributes planted on tokens, mfrac/msup/msub/msqrt/mroot/mover/munder/mtable and rows with >= 2 children: "
              "grammar-derived values, single-edit mutations, arbitrary Unicode next to delimiters, nesting up to depth 200, dangling / out-of-scope / duplicate "
-             "references, properties, several attributes per expression; both IntentErrorRecovery settings in every shipped language and style. "
+             "references, properties, rows whose other children vanish in the clean-up, several attributes per expression; both IntentErrorRecovery settings in every shipped language and style. "
              "non-trivial = the intent mechanism observably acted (Error mode returned Err for the value, or speech differs from the speech without the attribute); "
              "distinct by (host element, verdict of the recogniser, token-class spelling of the value, language)",
         min_nontrivial=1500 if tier == "quick" else 10000, harness_errors=errors, known_replayed=known, fixed_failures=fixed_failures)
